@@ -120,6 +120,15 @@ MC_MapsLines == {
     << Pair("x", "x_1"), Pair("x_1", "xx") >>,                     \* chain
     << Pair("x", "x"), Pair("x_1", "H__x") >> }                    \* identity entry mixed with a renaming
 
+(* instances that rename through Equation / EquationBlock: one- and two-factor terms (which an *)
+(* Equation stores as 'simple' terms) next to everything else (stored verbatim)               *)
+MC_OpsRoutes == {"*", "/", "+", "-"}
+MC_MapsRoutes == {
+    << Pair("x", "H__x") >>,
+    << Pair("x", "x_1"), Pair("x_1", "x") >>,                      \* swap
+    << Pair("x", "x_1"), Pair("x_1", "xx") >>,                     \* chain
+    << Pair("x", "x"), Pair("x_1", "H__x") >> }                    \* identity entry mixed with a renaming
+
 MC_PairsAll == [target : {"x", "x_1", "xx", "k"}, repl : MapTargets]
 MC_PairsNone == {}
 MC_PairsDeep == { [target |-> "x", repl |-> "xx"], [target |-> "x_1", repl |-> "x_1"] }   \* incl. an identity
